@@ -243,6 +243,7 @@ func (prop) Run(t *testing.T, tape *kernel.Tape, sc kernel.Scenario) *kernel.Res
 		st.apply(pc)
 		preset = st.authorization
 	}
+	decoy := tape.Bool(2, "decoy-query-parameter") // another parameter whose name merely ends with the key's name
 	bodyKind := []string{"none", "urlenc", "multipart"}[tape.Choose(3, "body-kind")]
 	queryToken, formToken := "", ""
 	if scheme == "bearer" || tape.Bool(4, "extra-placements") {
@@ -345,8 +346,13 @@ func (prop) Run(t *testing.T, tape *kernel.Tape, sc kernel.Scenario) *kernel.Res
 		op.Consumes = []string{"multipart/form-data"}
 		op.Params = append(op.Params, simapi.Param{Name: "field", In: "formData", Type: "string"}, simapi.Param{Name: "access_token", In: "formData", Type: "string"})
 	}
+	otherScopes := []string{"write", "read", "read"}
+	if scheme != "bearer" {
+		otherScopes = nil
+	}
+	op2 := simapi.Op{Method: "GET", Path: "/other", ID: "other", Security: &[]map[string][]string{{"S": otherScopes}}, Params: []simapi.Param{{Name: "X-Req", In: "header", Type: "string"}}}
 	api := &simapi.API{BasePath: "/api", Consumes: []string{"application/json"}, Produces: []string{"application/json"},
-		SecDefs: map[string]map[string]any{"S": secDef}, Ops: []simapi.Op{op}}
+		SecDefs: map[string]map[string]any{"S": secDef}, Ops: []simapi.Op{op, op2}}
 	doc, err := api.Doc()
 	if err != nil {
 		res.Infra = "description does not load: " + err.Error()
@@ -413,8 +419,14 @@ func (prop) Run(t *testing.T, tape *kernel.Tape, sc kernel.Scenario) *kernel.Res
 	u.RegisterConsumer("multipart/form-data", runtime.DiscardConsumer)
 	u.RegisterProducer("application/json", runtime.JSONProducer())
 	u.RegisterAuth("S", rec)
-	u.RegisterAuthorizer(&simapi.Authorizer{W: world, Decide: func(int, *http.Request, any) error { return nil }})
+	oauthMarker := "<authorizer not called>"
+	u.RegisterAuthorizer(&simapi.Authorizer{W: world, Decide: func(_ int, r *http.Request, _ any) error {
+		oauthMarker = security.OAuth2SchemeName(r)
+		return nil
+	}})
 	u.RegisterOperation(method, "/secured", &simapi.Handler{W: world, Op: "secured"})
+	u.RegisterOperation("GET", "/other", &simapi.Handler{W: world, Op: "other"})
+	followUp := scheme == "bearer" && tape.Bool(2, "follow-up-call-other-scopes")
 	ctx := middleware.NewContext(doc, u, nil)
 	handler := ctx.APIHandler(nil)
 
@@ -460,6 +472,10 @@ func (prop) Run(t *testing.T, tape *kernel.Tape, sc kernel.Scenario) *kernel.Res
 				if queryToken != "" {
 					_ = req.SetQueryParam("access_token", queryToken)
 				}
+				if decoy {
+					_ = req.SetQueryParam("page_"+keyName, "decoy-"+keyName)
+					_ = req.SetQueryParam("my_access_token", "decoy-bearer")
+				}
 				if bodyKind != "none" {
 					_ = req.SetFormParam("field", "v")
 					if formToken != "" {
@@ -488,6 +504,16 @@ func (prop) Run(t *testing.T, tape *kernel.Tape, sc kernel.Scenario) *kernel.Res
 					rt.DefaultAuthentication = compose(defCreds)
 				}
 				_, submitErr = rt.Submit(cop)
+				if followUp && want != nil {
+					// a later call to another operation served by the same authenticator must not disturb what the first callback was given
+					mainCalls, mainResults, mainSlot := len(calls), len(rec.results), *world.Slots[0]
+					_, _ = rt.Submit(&runtime.ClientOperation{ID: "other", Method: "GET", PathPattern: "/other", Schemes: []string{"http"},
+						ProducesMediaTypes: []string{"application/json"}, AuthInfo: client.BearerToken(want.token),
+						Params: runtime.ClientRequestWriterFunc(func(req runtime.ClientRequest, _ strfmt.Registry) error { return req.SetHeaderParam("X-Req", "0") }),
+						Reader: runtime.ClientResponseReaderFunc(func(runtime.ClientResponse, runtime.Consumer) (any, error) { return nil, nil })})
+					calls, rec.results = calls[:mainCalls], rec.results[:mainResults]
+					*world.Slots[0] = mainSlot
+				}
 			})
 		})
 		k.Run()
@@ -568,6 +594,9 @@ func (prop) Run(t *testing.T, tape *kernel.Tape, sc kernel.Scenario) *kernel.Res
 		}
 		if code != 200 || slot.HandlerRan != 1 {
 			env.Violate("C14/status", sig+":accepted", "credential accepted: status %d, handler ran %d", code, slot.HandlerRan)
+		}
+		if scheme == "bearer" && oauthMarker != "S" {
+			env.Violate("C14/oauth2-scheme-marker", sig, "bearer credential accepted for scheme S, but the request carries the OAuth2 scheme marker %q", oauthMarker)
 		}
 	}
 	res.FromEnv(env)
